@@ -1003,12 +1003,42 @@ def search_modes_sweep(ctx):
 
 # --- 5. bosonic vs fock: programs with non-Gaussian preparations (cat / GKP / Fock states) --------------------------------------
 
+class CaseTimeout(Exception):
+    pass
+
+
+class time_limit:
+    """Abort a single case after `seconds` of wall time (rejection samplers of the bosonic backend have no iteration bound)."""
+
+    def __init__(self, seconds):
+        self.seconds = seconds
+
+    def _raise(self, *a):
+        raise CaseTimeout()
+
+    def __enter__(self):
+        import signal
+        try:
+            self.old = signal.signal(signal.SIGALRM, self._raise)
+            signal.alarm(self.seconds)
+        except ValueError:   # not in the main thread
+            self.old = None
+
+    def __exit__(self, *a):
+        import signal
+        if self.old is not None:
+            signal.alarm(0)
+            signal.signal(signal.SIGALRM, self.old)
+        return False
+
+
 def bosonic_fock_diff(spec, cutoff, hbar=2.0):
     """Largest deviation over: first and second moments (all modes, incl. cross-correlations), the single-mode Wigner functions on a
     3 x 3 grid, mean and variance of every photon number. Cat and GKP states are exact on the bosonic side; Fock(n) is the documented
     approximation with quality parameter r = 0.05 (errors of order n r^2 ~ 1e-2)."""
     np.random.seed(4321)
-    b = run_x(spec, "bosonic", hbar=hbar)
+    with time_limit(30):
+        b = run_x(spec, "bosonic", hbar=hbar)
     # the Fock simulator has no measurement-based squeezing: an ideal-ancilla MSgate (r_anc >= 5, eta = 1) is the squeezing gate it implements
     ideal = [c for c in spec["cmds"] if c[0] == "MSgate"]
     fspec = dict(spec, cmds=[["Sgate", [c[1][0], c[1][1]], c[2], False] if c[0] == "MSgate" else c for c in spec["cmds"]])
@@ -1027,18 +1057,20 @@ def bosonic_fock_diff(spec, cutoff, hbar=2.0):
             pass   # BosonicState.mean_photon refuses results whose rounding residue is "complex" (states.py, numerical strictness only)
     tol = fock_tol(f, None, 1e-4)
     kf = sum(c[1][0] for c in spec["cmds"] if c[0] == "Fock")
-    tol += 0.03 * kf
+    tol += 0.03 * kf + (2e-3 if any(c[0] == "GKP" for c in spec["cmds"]) else 0.0)
     for c in ideal:
         tol += (4 * math.exp(-2 * c[1][2]) + (0.0 if c[1][4] else 3 * math.exp(-c[1][2]) + 2e-4)) * math.exp(2 * abs(c[1][0])) * max(1.0, float(np.abs(gf[1]).max()))
     if any(c[0] == "MeasureHomodyneSel" for c in spec["cmds"]):
-        tol += 6e-4 * (14.0 / cutoff) ** 8
+        # truncated quadrature eigenstate on the Fock side, relative to the (possibly small) probability of the outcome: 1.3e-3 observed
+        tol += 6e-3 * (14.0 / cutoff) ** 8
     return float(d), tol
 
 
 def bosonic_fock_spec(rng):
-    n = rng.choice([1, 2, 2, 2, 3])
-    cutoff = {1: 16, 2: 11, 3: 7}[n]
-    small = n == 3
+    # two modes at most: with ample cutoffs the truncated weight is negligible, so a deficit cannot be claimed as truncation error
+    n = rng.choice([1, 2, 2, 2])
+    cutoff = {1: 16, 2: 11}[n]
+    small = False
     cmds, heavy = [], 0
     for m in rng.sample(range(n), n):
         r = rng.random()
@@ -1049,7 +1081,7 @@ def bosonic_fock_spec(rng):
             cmds.append(["Catstate", [a, rng.choice([0.0, round(rng.uniform(-math.pi, math.pi), 3)]), rng.choice([0, 1]), "real"], [m], False])
             heavy += 1
         elif r < 0.55 and heavy == 0 and not small:
-            cmds.append(["GKP", [round(rng.uniform(0, math.pi), 3), round(rng.uniform(-math.pi, math.pi), 3), round(rng.uniform(0.7, 1.1), 3)], [m], False])
+            cmds.append(["GKP", [round(rng.uniform(0, math.pi), 3), round(rng.uniform(-math.pi, math.pi), 3), round(rng.uniform(0.8, 1.2), 3)], [m], False])
             heavy += 1
         elif r < 0.7:
             cmds.append(["Fock", [rng.choice([1, 1, 2]) if not small else 1], [m], False])
@@ -1063,12 +1095,21 @@ def bosonic_fock_spec(rng):
     for _ in range(rng.randint(1, 4)):
         c = bc.weak_cmd(rng, n, names)
         cmds.append(c)
+    if any(c[0] == "GKP" for c in cmds):
+        # the Fock-side GKP ket is renormalised after truncation (no trace deficit to go by) and has a long photon-number tail:
+        # measured deviation 1e-3 at cutoff 11, 3e-5 at 16, 4e-7 at 20 for epsilon = 0.7
+        cutoff = {1: 24, 2: 16}[n]
     r = rng.random()
     if r < 0.25:
-        c = msgate_cmd(rng, n, rng.choice(["limit", "single"]))
+        # single-shot maps draw the ancilla outcome by rejection sampling, which practically never accepts for states with many
+        # weights of alternating sign (real-valued cat, GKP): there only the average map
+        slow = any(c[0] == "GKP" or (c[0] == "Catstate" and c[1][3] == "real") for c in cmds)
+        c = msgate_cmd(rng, n, "limit" if slow else rng.choice(["limit", "single"]))
         c[1][0] = round(c[1][0] * 0.4, 3)
         cmds.insert(rng.randint(n0, len(cmds)), c)
-    elif r < 0.45 and n <= 2:
+    elif r < 0.45 and not any(c[0] == "Fock" for c in cmds):
+        # (not after Fock preparations: post-selecting near a node of the wave function amplifies the r = 0.05 approximation error of
+        # the bosonic Fock state without bound - observed weights of +-3.6e4 and 0.09 deviation of the conditional mean)
         cmds.insert(rng.randint(len(cmds) - 1, len(cmds)), ["MeasureHomodyneSel", [round(rng.uniform(-2, 2), 3), round(rng.uniform(-0.4, 0.4), 3)], [rng.randrange(n)], False])
         cutoff = max(cutoff, 14)
     return {"n": n, "cmds": cmds}, cutoff
@@ -1082,6 +1123,9 @@ def search_bosonic_fock(ctx):
         data = {"check": "bosonic-fock", "spec": spec, "cutoff": cutoff, "hbar": hbar}
         try:
             d, tol = bosonic_fock_diff(spec, cutoff, hbar)
+        except CaseTimeout:
+            ctx.hist["bosonic-fock-skipped-timeout"] = ctx.hist.get("bosonic-fock-skipped-timeout", 0) + 1
+            continue
         except Exception as e:
             ctx.counterexample("bosonic-fock:raises:%s" % type(e).__name__, "running %s raised %r" % (data, e), data)
             continue
@@ -1106,7 +1150,8 @@ def msgate_diff(spec, hbar=2.0):
     ref_spec = dict(spec, cmds=[["Sgate", [c[1][0], c[1][1]], c[2], False] if c in ideal else c for c in spec["cmds"]])
     r = reference(ref_spec)
     np.random.seed(1234)   # single-shot maps sample the ancilla outcome; the ideal-ancilla output does not depend on it
-    b = obs_h(run_x(spec, "bosonic", hbar=hbar), hbar)
+    with time_limit(30):
+        b = obs_h(run_x(spec, "bosonic", hbar=hbar), hbar)
     scale = max(1.0, float(np.abs(r[1]).max()))
     tol = 1e-8 * scale
     for c in ideal:
@@ -1127,6 +1172,8 @@ def search_msgate(ctx):
         data = {"check": "msgate", "spec": spec, "hbar": hbar}
         try:
             d, tol = msgate_diff(spec, hbar)
+        except CaseTimeout:
+            continue
         except Exception as e:
             ctx.counterexample("msgate:raises:%s" % type(e).__name__, "running %s raised %r" % (data, e), data)
             continue
@@ -1252,6 +1299,9 @@ def replay(ctx, data):
             x, tol = msgate_diff(spec, hbar)
             print("max deviation bosonic MSgate vs reference =", x, "tol", tol)
             return x > tol
+    except CaseTimeout:
+        print("replay: case timed out (sampling), not judged")
+        return False
     except Exception as e:
         print("replay raised", repr(e))
         return True
